@@ -22,7 +22,16 @@ what a hypothesis states: `Fits` checks, for the given `E`, that strings and key
 are fixed points of `E.norm` and that the safe prefix of a byte-cut prefix is a
 normalised byte-prefix of it (decidable per value, evaluated by the driver on
 the harness' inputs); `SetsRebuild` is the law assumed of `cty.SetVal` at the set
-nodes of the value (vacuous without sets).
+nodes of the value (vacuous without sets) — and a THEOREM for the set constructor the
+driver runs under the decidable condition `setsApart` (`roundtrip_covers_sets_partial`).
+
+Added by slice d16 (audit of C16): the `Text('f', -1)` route under hypotheses on digit lists
+(`text_route_exact_partial`, `number_roundtrip_digits`, `bound_text_exact`; `TextRouteExact` false);
+what the codec KEEPS of a refinement (`RfnKept` inside `Approx` at every unknown leaf,
+`unknown_refinement_kept_partial`); `Marshal` is total on well-shaped conforming values and a mark
+at any depth is an ERROR (`marshal_total_partial`, `marked_nested_rejected_err`); the
+`convert.Convert` path of `Marshal` (`marshalC…`, with `MarkedRejectedOnConversionPath` false: a
+recorded finding); /repo bb6ac26 (`known_length_list_refused`).
 
 The full-strength statement `RoundtripCovers` is FALSE of the code as it exists;
 it is kept as a `def`, with three counterexamples (each the replay of a recorded
@@ -39,6 +48,11 @@ witness is a positive regression theorem (`whole_beyond_int64_regression`).
 -/
 import CtyModel.Lemmas.MsgpackKnown
 import CtyModel.Lemmas.MsgpackMarks
+import CtyModel.Lemmas.d16Text
+import CtyModel.Lemmas.d16SetLemmas
+import CtyModel.Lemmas.d16MarshalLemmas
+import CtyModel.Lemmas.d16KnownLen
+import CtyModel.Props.C08
 import CtyModel.Generated.Limits
 namespace CtyModel
 namespace C16
@@ -152,12 +166,64 @@ theorem infinity_exact (n : Bool) :
     encNum (.inf n) = .f64 (.inf n) ∧ unmarshalNumber (encNum (.inf n)) = .ok (.inf n) := by
   simp [encNum, route, unmarshalNumber]
 
-/-- Every known number that satisfies `numFits` — automatically true on the integer and float
-paths and for every whole number whose mantissa fits 512 bits; for the other numbers: the
-shortest decimal text parses back — decodes to an acceptable number: numerically identical
-if whole or an exact float64, Equal otherwise. -/
+/-- Every known number that satisfies `numFits` decodes to an acceptable number: numerically
+identical if whole or an exact float64, Equal otherwise.  `numFits` is automatically true on the
+integer and float paths and for every whole number whose mantissa fits 512 bits; for a number on
+the `Text('f', -1)` route it IS the conclusion ("the shortest decimal text parses back to an Equal
+number": decided per number, circular as a hypothesis).  The genuine theorems for that route are
+`text_route_exact_partial` and `number_roundtrip_digits` below (hypothesis on digit lists only). -/
 theorem number_roundtrip (x : Num) (h : numFits x = true) :
     ∃ y, unmarshalNumber (encNum x) = .ok y ∧ numBack y x := encNum_back x h
+
+/-! ### The `Text('f', -1)` route (clause "every other number comes back equal")
+
+A number that is not whole and not exactly a float64 is a dyadic rational m·2^e, e < 0, whose
+exact decimal expansion is finite (exactly -e fractional digits).  When the shortest text that
+math/big's `roundShortest` picks IS that expansion (`digitsExactOwn`: a comparison of digit lists,
+nothing is parsed), the decoder — `big.ParseFloat` at 512 bits, an exact division by 5^k·2^k for
+k ≤ 248 fractional digits — gives back the very same mantissa and exponent.  Which numbers are
+NOT covered is named by `Msgpack.textRouteClass` and counted by the harness on every run. -/
+
+/-- Numbers on the text route whose shortest text is exact come back as the SAME mantissa and
+exponent held at 512 bits — numerically identical, not merely Equal — whatever their precision. -/
+theorem text_route_exact_partial (n : Bool) (m : Nat) (e : Int) (p : Nat)
+    (h : digitsExactOwn (.fin n m e p) = true) (hf : (Num.toF64 (.fin n m e p)).2 = false) :
+    encNum (.fin n m e p) = .str (Num.textF (.fin n m e p)) ∧
+    unmarshalNumber (encNum (.fin n m e p)) = .ok (.fin n m e 512) ∧
+    Num.cmp (.fin n m e 512) (.fin n m e p) = 0 := by
+  obtain ⟨h1, h2⟩ := encNum_text_exact n m e p h hf
+  exact ⟨h1, h2, cmp_fin_self n m e 512 p⟩
+
+/-- `number_roundtrip` without a hypothesis that parses anything: if the shortest text of `x` is
+its exact expansion both at its own precision and at 512 bits (`digitsExact`), `x` decodes to an
+acceptable number (Equal in cty's sense: both print the same digits). -/
+theorem number_roundtrip_digits (x : Num) (h : digitsExact x = true) :
+    ∃ y, unmarshalNumber (encNum x) = .ok y ∧ numBack y x := encNum_back x (numFits_of_digits x h)
+
+/-- … and the side condition `boundFits` of the round-trip theorems (a bound of an unknown number
+must come back NUMERICALLY identical) follows from the digit-level condition too. -/
+theorem bound_text_exact (b : Bound) (h : digitsExactOwn b.v = true) : boundFits (some b) = true :=
+  boundFits_of_digits b h
+
+/-- FULL statement for the text route (false): every finite number whose mantissa fits 512 bits
+comes back numerically identical. -/
+def TextRouteExact : Prop :=
+  ∀ x : Num, x.isInf = false → x.minPrec ≤ 512 → ∃ y, unmarshalNumber (encNum x) = .ok y ∧ Num.cmp y x = 0
+
+/-- (2^60+1)·2^-70 held at 61 bits (only reachable through `cty.NumberVal` with a caller-made
+big.Float): not whole, not a float64; its shortest text at 61 bits, "0.000976562500000000001", is
+not its exact expansion (70 digits), and parses at 512 bits to another number.  As a known number
+it still comes back Equal in cty's sense (`numFits` holds: both print the same text); as a BOUND
+of an unknown number it moves (findings `roundtrip-refinement / …-bound-narrowed:
+decimal-nonstandard-precision`).  The same number held at 512 bits satisfies `digitsExact`. -/
+theorem text_route_exact_counterexample : ¬ TextRouteExact := by
+  intro h
+  obtain ⟨y, hy, hc⟩ := h (.fin false (2 ^ 60 + 1) (-70) 61) rfl (by decide)
+  have : (match unmarshalNumber (encNum (.fin false (2 ^ 60 + 1) (-70) 61)) with
+          | .ok y => Num.cmp y (.fin false (2 ^ 60 + 1) (-70) 61) != 0
+          | _ => false) = true := by decide +kernel
+  rw [hy] at this
+  simp [hc] at this
 
 /-- FULL statement (false, but only beyond 512 bits of mantissa): whole numbers of any size
 come back numerically identical. -/
@@ -226,13 +292,70 @@ def RoundtripCovers : Prop :=
 anywhere in the constraint.  Under `Fits` (and the set law): `Marshal` succeeds,
 `Unmarshal` of its output with the same constraint succeeds, the result has the
 original's type, is unknown exactly where the original is, with a refinement there
-that admits every concrete value the original's admitted (`Weaker`: the prefix is
-cut on a boundary `SafeKnownPrefix` accepts, bounds are kept), and is equal in
-every known part. -/
+that admits every concrete value the original's admitted (`Weaker`) AND is the original one as
+the wire format keeps it (`RfnKept`, inside `Approx`: nullness, numeric bounds and length bounds
+unchanged, a prefix unchanged unless longer than 256 bytes, then a byte-prefix of it — so a
+decoder that dropped refinements would not satisfy this), and is equal in every known part. -/
 theorem roundtrip_covers_partial (E : Ext) (v : Value) (t : Ty) (hfit : Fits E t v = true) (hset : SetsRebuild E v)
     (hconf : Ty.conformErrs t v.ty = 0) :
     ∃ it v', marshal E v t = .ok it ∧ Unmarshal E it t = .ok v' ∧ ApproxV v' v :=
   roundtrip E v t hfit hset hconf
+
+/-- The round trip for values WITH SETS, without an assumed law: for the set constructor the
+correspondence driver runs (`Msgpack.setOfDedup`: keeps the first of members that are Equal, in the
+order they come; the harness compares sets up to order, bucket order is property C03's) the law
+`SetsRebuild` is a THEOREM for every value whose set members are pairwise `apart` (`setsApart`, a
+decidable syntactic condition evaluated by the driver on every generated case: one of the two
+members is unknown, or they differ in a bool, a string, a whole number, a length or a key, or in a
+constructor, at some position).  Not covered: sets whose members differ only in numbers that are not
+whole, and sets of sets of equal sizes. -/
+theorem roundtrip_covers_sets_partial (E : Ext) (hE : E.setOf = setOfDedup) (v : Value) (t : Ty)
+    (hfit : Fits E t v = true) (hsets : setsApart v.ty v.v = true) (hconf : Ty.conformErrs t v.ty = 0) :
+    ∃ it v', marshal E v t = .ok it ∧ Unmarshal E it t = .ok v' ∧ ApproxV v' v :=
+  roundtrip E v t hfit (setsRebuild_of_apart E hE v hsets) hconf
+
+/-! ### Marks on the conversion path -/
+
+/-- FULL statement (false): a value that contains a mark ANYWHERE is never accepted by `Marshal`,
+also when its type does not conform to the constraint (`marshalC`: `convert.Convert` first). -/
+def MarkedRejectedOnConversionPath : Prop :=
+  ∀ (E : Ext) (fuel : Nat) (v : Value) (t : Ty), v.containsMarked = true →
+    ∀ it, marshalC E Convert.driverEnv fuel v t ≠ .ok it
+
+/-- `{zz = {b = false (marked), zz = true}}`, an object whose only attribute holds a map with a marked member -/
+def markDroppedWitness : Value :=
+  ⟨.object ["zz"] [.map .bool] [false], .smap ["zz"] [.smap ["b", "zz"] [.marked ["m1"] (.b false), .b true]]⟩
+
+/-- … marshalled against the EMPTY object type: the type does not conform, `convert.Convert` drops the
+attribute the target type does not have — and the mark with it — and `Marshal` writes an empty map
+(replayed on /repo: `msgpack.Marshal(cty.ObjectVal(…"zz": cty.MapVal(… "b": cty.False.Mark("m1") …)),
+cty.EmptyObject)` answers the byte 0x80 and no error; finding `marked-rejected /
+accepted:mark-only-in-part-dropped-by-conversion-to-constraint`). -/
+theorem marked_rejected_conversion_counterexample : ¬ MarkedRejectedOnConversionPath := by
+  intro h
+  have hc : (match marshalC E0 Convert.driverEnv 64 markDroppedWitness (.object [] [] []) with
+             | .ok _ => true | _ => false) = true := by decide +kernel
+  cases hm : marshalC E0 Convert.driverEnv 64 markDroppedWitness (.object [] [] []) with
+  | ok it => exact h E0 64 markDroppedWitness _ (by decide) it hm
+  | err e => rw [hm] at hc; simp at hc
+  | panic w => rw [hm] at hc; simp at hc
+  | unmodelled => rw [hm] at hc; simp at hc
+
+/-- The strongest true statement: on the conversion path a mark that SURVIVES the conversion (at any
+depth of the converted value) makes `Marshal` refuse. -/
+theorem marked_rejected_conversion_partial (E : Ext) (C : Convert.Env) (fuel : Nat) (v v' : Value) (t : Ty)
+    (hn : Ty.conformErrs t v.ty ≠ 0) (hcv : Convert.convert C fuel v t = .ok v')
+    (hconf : Ty.conformErrs t v'.ty = 0) (hm : v'.containsMarked = true) (it : Item) :
+    marshalC E C fuel v t ≠ .ok it := by
+  intro h
+  have h1 : marshalC E C fuel v t = marshalV E v' t := by
+    unfold marshalC; rw [if_pos hn, hcv]
+  have h2 : marshalC E C fuel v' t = marshalV E v' t := by
+    unfold marshalC; simp [hconf]
+  rw [h1, ← h2, marshalC_conforming E C fuel v' t hconf] at h
+  have := marshal_ok_unmarked E v' t it h
+  rw [hm] at this
+  exact absurd this (by simp)
 
 /-- For a wholly known value the result is wholly equal: `RawEq` holds part for part
 (numbers: numerically identical when whole or an exact float64, Equal otherwise). -/
@@ -246,7 +369,8 @@ theorem roundtrip_known_partial (E : Ext) (v : Value) (t : Ty) (hfit : Fits E t 
 approximated, never narrowed or invented. -/
 theorem unknown_type_preserved_partial (E : Ext) (vt t : Ty) (r : Rfn) (hfit : Fits E t ⟨vt, .unk r⟩ = true)
     (hconf : Ty.conformErrs t vt = 0) :
-    ∃ it r', marshal E ⟨vt, .unk r⟩ t = .ok it ∧ Unmarshal E it t = .ok ⟨vt, .unk r'⟩ ∧ Weaker vt r' r := by
+    ∃ it r', marshal E ⟨vt, .unk r⟩ t = .ok it ∧ Unmarshal E it t = .ok ⟨vt, .unk r'⟩ ∧ Weaker vt r' r ∧
+      (vt.isDyn = true ∨ RfnKept r' r) := by
   obtain ⟨it, v', hm, hu, hty, ha⟩ := roundtrip E ⟨vt, .unk r⟩ t hfit
     (by intro n hn; cases vt <;> simp [setNodes] at hn) hconf
   obtain ⟨ty', p'⟩ := v'
@@ -255,20 +379,121 @@ theorem unknown_type_preserved_partial (E : Ext) (vt t : Ty) (r : Rfn) (hfit : F
   cases p' <;> simp only [Approx] at ha <;> try exact ha.elim
   exact ⟨it, _, hm, hu, ha⟩
 
+/-- What `marshalUnknownValue` writes for an unknown value of a type other than the placeholder
+decodes (`unmarshalUnknownValue`) to an unknown value of the same type whose refinement is the
+ORIGINAL one as the wire format keeps it (`RfnKeptE`): nullness, numeric bounds (numerically
+identical, same inclusiveness) and length bounds unchanged; a string prefix unchanged byte for
+byte, unless it is longer than 256 bytes: then it is `ctystrings.SafeKnownPrefix` of its first
+255 bytes.  (Strictly stronger than `Weaker`, which a decoder dropping every refinement would
+satisfy; `Approx` carries the `E`-free form `RfnKept` at every unknown leaf, so
+`roundtrip_covers_partial` states it at any depth.) -/
+theorem unknown_refinement_kept_partial (E : Ext) (vt : Ty) (r : Rfn) (hd : vt.isDyn = false)
+    (h : rfnOK E vt r = true) :
+    ∃ it r', marshalUnknown E vt r = .ok it ∧ unmarshal E it vt = .ok ⟨vt, .unk r'⟩ ∧
+      Weaker vt r' r ∧ RfnKeptE E r' r := by
+  obtain ⟨it, hm, r', hu, hw, hk⟩ := unknown_rt E vt r hd h
+  exact ⟨it, r', hm, hu, hw, hk⟩
+
+/-- `RfnKept` is not satisfied by dropping a refinement: an unknown number with a lower bound does
+not come back unrefined, nor with another bound. -/
+theorem refinement_kept_not_dropped :
+    ¬ RfnKept .unref (.num .u (some ⟨.fin false 1 0 64, true⟩) none) ∧
+    ¬ RfnKept (.num .u (some ⟨.fin false 1 1 64, true⟩) none) (.num .u (some ⟨.fin false 1 0 64, true⟩) none) := by
+  constructor
+  · simp [RfnKept, trivialRfn, Rfn.nullness, keptBody]
+  · simp only [RfnKept, trivialRfn, Rfn.nullness, keptBody]
+    simp only [Option.isNone, Bool.and_false, Bool.false_eq_true, if_false]
+    rintro ⟨lo', hi', heq, hb, _⟩
+    cases heq
+    exact absurd hb.1 (by decide)
+
+/-- /repo bb6ac26: a refinement map that describes a LIST OF KNOWN LENGTH — "not null" and two equal
+positive length bounds, which the refinement builder would turn into a known list of that many
+unknown elements, allocated on the word of the input — is never decoded to a value, whatever else
+the map holds (`knownLenList` follows the three variables the Go loop keeps).  `Marshal` never writes
+such a map: a value refined that way is already known. -/
+theorem known_length_list_refused (E : Ext) (e : Ty) (len n : Nat) (stream : List Item) (h1 : 1 < len)
+    (h2 : len ≤ maxExtLen) (hk : knownLenList (.list e) n stream = true) (v : Value) :
+    unmarshal E (.ext unknownWithRefinementsExt len (.map n) stream) (.list e) ≠ .ok v :=
+  knownLen_refused E e len n stream h1 h2 hk v
+
+/-- Regression (the witness of the repaired finding of C17, 2^22 announced elements in 18 bytes, and
+its neighbours): refused with an error; equal bounds WITHOUT "not null", or different bounds, still
+decode to an unknown list. -/
+theorem known_length_list_regression :
+    resIsErr (Unmarshal E0 (.ext 12 7 (.map 3) [.int 1, .bool false, .int 5, .int 2, .int 6, .int 2]) (.list .string)) = true ∧
+    resIsErr (Unmarshal E0 (.ext 12 13 (.map 3) [.int 1, .bool false, .int 5, .uint 4194304, .int 6, .uint 4194304])
+      (.list .string)) = true ∧
+    resIsUnknown (Unmarshal E0 (.ext 12 5 (.map 2) [.int 5, .int 2, .int 6, .int 2]) (.list .string)) = true ∧
+    resIsUnknown (Unmarshal E0 (.ext 12 7 (.map 3) [.int 1, .bool false, .int 5, .int 2, .int 6, .int 3]) (.list .string)) = true ∧
+    resIsUnknown (Unmarshal E0 (.ext 12 7 (.map 3) [.int 1, .bool false, .int 5, .int 2, .int 6, .int 2]) (.set .string)) = true := by
+  decide
+
 /-- Marked values are rejected with an error (not a panic), whatever the constraint. -/
 theorem marked_rejected (E : Ext) (t vt : Ty) (ms : List String) (p : Payload) :
     marshal E ⟨vt, .marked ms p⟩ t = .err "value has marks" := by
   simp [marshal, Payload.isMarked]
 
-/-- A mark at any depth: `Marshal` does not succeed, and it does not panic either (what is
-left is an error — or, in the model, an input shape outside the modelled fragment). -/
+/-- A mark at any depth, for ANY value and constraint (also ill-shaped or non-conforming ones, where
+the model `marshal` answers `.unmodelled`): `Marshal` does not succeed and does not panic.  That what
+is left IS an error is `marked_nested_rejected_err` below. -/
 theorem marked_nested_rejected (E : Ext) (v : Value) (t : Ty) (h : v.containsMarked = true) :
     (∀ it, marshal E v t ≠ .ok it) ∧ (∀ w, marshal E v t ≠ .panic w) :=
   ⟨fun it hm => by simp [marshal_ok_unmarked E v t it hm] at h, marshal_no_panic E v t⟩
 
-/-- `Marshal` never panics, whatever the value and the constraint. -/
+/-- The model `marshal` never answers `.panic`, whatever the value and the constraint.  By itself
+this is weak: `marshal` answers `.unmodelled` on a payload that does not fit its type and on a
+value whose type does not conform (there the real code calls `convert.Convert` first).  The two
+theorems that close the gap are `marshal_total_partial` (conforming, well-shaped values: the answer
+is a value or an error) and `marshalC_never_panics_partial` (the conversion path, `marshalC`). -/
 theorem marshal_never_panics (E : Ext) (v : Value) (t : Ty) (w : String) : marshal E v t ≠ .panic w :=
   marshal_no_panic E v t w
+
+/-- Clause "… rejected with an error", at any depth: for a value whose payload has the shape its
+type dictates (`shapeP`: marks allowed ANYWHERE, capsules allowed, nothing is said about what is
+inside a marked node) and whose type conforms to the constraint, with `SafeKnownPrefix` answering on
+every input, a mark at any depth makes `Marshal` answer an ERROR — not `.unmodelled`, not a panic. -/
+theorem marked_nested_rejected_err (E : Ext) (hs : SafeTotal E) (v : Value) (t : Ty) (ht : t.wf = true)
+    (hv : v.ty.wf = true) (hconf : Ty.conformErrs t v.ty = 0) (hp : shapeP v.ty v.v = true)
+    (hm : v.containsMarked = true) : ∃ e, marshal E v t = .err e :=
+  marked_nested_err E hs v t hconf (confShape_of_conform t v.ty ht hv hconf) hp hm
+
+/-- `Marshal` on a well-shaped value of a conforming type answers a value or an error: never a
+panic, and never outside the modelled fragment (audit of C16, missing theorem (c)). -/
+theorem marshal_total_partial (E : Ext) (hs : SafeTotal E) (v : Value) (t : Ty) (ht : t.wf = true)
+    (hv : v.ty.wf = true) (hconf : Ty.conformErrs t v.ty = 0) (hp : shapeP v.ty v.v = true) :
+    (∃ it, marshal E v t = .ok it) ∨ (∃ e, marshal E v t = .err e) :=
+  marshal_total E hs v t hconf (confShape_of_conform t v.ty ht hv hconf) hp
+
+/-- `Msgpack.marshalC` is `Marshal` WITH its non-conforming path (`convert.Convert` first — the model
+of property C08, in any environment `C`); on a conforming value it is `marshal`. -/
+theorem marshalC_conforming_eq (E : Ext) (C : Convert.Env) (fuel : Nat) (v : Value) (t : Ty)
+    (h : Ty.conformErrs t v.ty = 0) : marshalC E C fuel v t = marshal E v t :=
+  marshalC_conforming E C fuel v t h
+
+/-- `Marshal` adds no panic of its own on the conversion path: `marshalC` panics only where
+`convert.Convert` does … -/
+theorem marshalC_panics_only_in_convert (E : Ext) (C : Convert.Env) (fuel : Nat) (v : Value) (t : Ty) (w : String)
+    (h : marshalC E C fuel v t = .panic w) : Convert.convert C fuel v t = .panic w :=
+  marshalC_panic_only_from_convert E C fuel v t w h
+
+/-- … and in the environment the drivers run (`Convert.driverEnv`, diffed against /repo by `cv.convert`
+and `d16.marshalc`), for a well-typed wholly-known value and a placeholder-free constraint
+(`Convert.RegularPair`, C08's side condition), conforming or not: no panic at all. -/
+theorem marshalC_never_panics_partial (E : Ext) (fuel : Nat) (v : Value) (t : Ty)
+    (hp : Convert.RegularPair v t) (hk : Payload.whollyKnown v.v = true) (w : String) :
+    marshalC E Convert.driverEnv fuel v t ≠ .panic w := by
+  intro h
+  have := C08.no_panic_driver fuel v t hp hk
+  rw [marshalC_panic_only_from_convert E _ fuel v t w h] at this
+  simp [Res.isPanic] at this
+
+/-- … and when the conversion answers a well-shaped value, `Marshal` answers a value or an error. -/
+theorem marshalC_total_partial (E : Ext) (hs : SafeTotal E) (C : Convert.Env) (fuel : Nat) (v v' : Value) (t : Ty)
+    (hn : Ty.conformErrs t v.ty ≠ 0) (hcv : Convert.convert C fuel v t = .ok v')
+    (hc : confShape t v'.ty = true) (hp : shapeP v'.ty v'.v = true) :
+    (∃ it, marshalC E C fuel v t = .ok it) ∨ (∃ e, marshalC E C fuel v t = .err e) :=
+  marshalC_total_of_convert E hs C fuel v v' t hn hcv hc hp
 
 /-! ## Counterexamples to the full statement (replays of recorded findings) -/
 
@@ -367,6 +592,18 @@ example : SetsRebuild E0 sample := noSets rfl
 example : Fits E0 (.set .number) ⟨.set .number, .sset [1, 2] [.n (.fin false 1 0 64), .unk (.num .f none none)]⟩ = true ∧
     SetsRebuild E0 ⟨.set .number, .sset [1, 2] [.n (.fin false 1 0 64), .unk (.num .f none none)]⟩ :=
   ⟨by decide, fun _ _ ps' h => ⟨[], ps', rfl, h⟩⟩
+-- the same with the de-duplicating constructor of the driver: every hypothesis of `roundtrip_covers_sets_partial`
+example : Fits ⟨id, fun _ => none, setOfDedup⟩ (.set .number)
+      ⟨.set .number, .sset [1, 2, 3] [.n (.fin false 1 0 64), .n (.fin false 3 0 64), .unk (.num .f none none)]⟩ = true ∧
+    setsApart (.set .number) (.sset [1, 2, 3] [.n (.fin false 1 0 64), .n (.fin false 3 0 64), .unk (.num .f none none)]) = true := by
+  decide
+-- marks at depth, a capsule-free conforming shape: the hypotheses of `marked_nested_rejected_err`
+example : shapeP (.list .string) (.seq [.s "a", .marked ["m"] (.s "b")]) = true ∧
+    Ty.conformErrs (.list .dyn) (.list .string) = 0 ∧
+    (⟨.list .string, .seq [.s "a", .marked ["m"] (.s "b")]⟩ : Value).containsMarked = true := by decide
+-- numbers on the text route covered by the digit-level hypothesis (1/8 + 2^-70 at 512 bits; 5/8 at 20 bits is a float64)
+example : digitsExact (.fin false (2 ^ 60 + 1) (-70) 512) = true ∧ digitsExactOwn (.fin false (2 ^ 60 + 1) (-70) 61) = false ∧
+    (Num.toF64 (.fin false (2 ^ 60 + 1) (-70) 512)).2 = false := by decide +kernel
 example : (Num.fin false 5 0 512).toInt? = some 5 ∧ minI64 ≤ (5 : Int) ∧ (5 : Int) ≤ maxI64 := by decide
 example : (⟨.list .string, .seq [.s "a", .marked ["m"] (.s "b")]⟩ : Value).containsMarked = true := by decide
 example : Fits E0 .dyn ⟨.list .number, .seq [.n (.fin false 1 63 64), .n (.fin false 1 (-1) 512)]⟩ = true := by decide
